@@ -922,8 +922,17 @@ def check_indents(ctx: Ctx) -> None:
                     if n.kind == "stmt" and isinstance(n.ast, ast.Assign) and isinstance(n.ast.targets[0], ast.Subscript) \
                             and norm(n.ast.targets[0].slice) == h.ast.target.id:
                         rest.append(n)
-        ok1 = any(pi in {x.id for x in ast.walk(n.ast.value) if isinstance(x, ast.Name)} for n in first)
-        ok2 = any(ps in {x.id for x in ast.walk(n.ast.value) if isinstance(x, ast.Name)} for n in rest)
+        if pi not in f.params or ps not in f.params:
+            wp_ = [p_ for p_ in f.params if not (f.cls is not None and p_ == f.params[0])]
+            if len(wp_) >= 3:
+                pi, ps = wp_[1], wp_[2]  # the LineWrapper protocol: (text, initial_indent, subsequent_indent) by position
+
+        def mentions(n_: Node, param: str) -> bool:
+            """the stored value is built from the parameter itself or from a plain copy of it"""
+            return any(isinstance(x, ast.Name) and (x.id == param or origins(prog, f, x, n_) == frozenset({("param", param)})) for x in ast.walk(n_.ast.value))
+
+        ok1 = any(mentions(n, pi) for n in first)
+        ok2 = any(mentions(n, ps) for n in rest)
         ctx.ob("R-LOSSLESS-L8", f"{f.qual} :: first line gets initial_indent, later lines subsequent_indent", ok1 and ok2,
                "lines[0] must be prefixed with the initial indent and lines[1:] with the subsequent indent", where(f, f.node))
     wf = width_wrapper(ctx)
@@ -1080,7 +1089,15 @@ def check_accounting(ctx: Ctx, markdown_only: bool = False) -> None:
                             return "LEN_SUB"
                     return None
 
-                al = frozenset({"init=initial_indent", "sub=subsequent_indent", "lenfn=len_fn"})
+                # roles by what the names denote: the wrapper's 2nd / 3rd parameter, the factory's len_fn - also when the
+                # closure reads them through once-bound copies (fields of a settings record, spliced-in helper parameters)
+                wp_ = [p_ for p_ in sw.params if not (sw.cls is not None and p_ == sw.params[0])]
+                role_names = {"init": {wp_[1] if len(wp_) > 2 else "initial_indent"}, "sub": {wp_[2] if len(wp_) > 2 else "subsequent_indent"}, "lenfn": {"len_fn"}}
+                for x in ast.walk(sw.node):
+                    if isinstance(x, ast.Name) and isinstance(x.ctx, ast.Load):
+                        if origins(prog, sw, x, flow.cfg.entry) == frozenset({("free", "len_fn")}):
+                            role_names["lenfn"].add(x.id)
+                al = frozenset(f"{r_}={nm_}" for r_, nms_ in role_names.items() for nm_ in nms_)
                 got: dict[bool, set] = {}
                 augs: set = set()
                 for first in (True, False):
@@ -1193,8 +1210,20 @@ def check_accounting(ctx: Ctx, markdown_only: bool = False) -> None:
     for f, target in ((wl, "splitter"), (sw, "split_sentences")):
         fl = prog.flow(f)
         # (the test may sit behind a temporary: `no_wrapping = width <= 0 ... if no_wrapping:`)
-        guards = [n for n in fl.cfg.nodes if n.kind == "test" and isinstance(n.ast, (ast.Compare, ast.Name))
-                  and norm(expand_expr(prog, f, n.ast, n, strict=False)) in ("width <= 0", "width < 1", "0 >= width", "1 > width")]
+        def is_width(e: ast.AST, at: Node) -> bool:
+            return isinstance(e, ast.Name) and (e.id == "width" or origins(prog, f, e, at) <= frozenset({("param", "width"), ("free", "width")}))
+
+        def nonpositive_width(n_: Node) -> bool:
+            e = expand_expr(prog, f, n_.ast, n_, strict=False)
+            if not (isinstance(e, ast.Compare) and len(e.ops) == 1):
+                return False
+            l_, op_, r_ = e.left, e.ops[0], e.comparators[0]
+            zero = lambda x: isinstance(x, ast.Constant) and x.value == 0  # noqa: E731
+            one = lambda x: isinstance(x, ast.Constant) and x.value == 1  # noqa: E731
+            return (is_width(l_, n_) and ((isinstance(op_, ast.LtE) and zero(r_)) or (isinstance(op_, ast.Lt) and one(r_)))) or \
+                (is_width(r_, n_) and ((isinstance(op_, ast.GtE) and zero(l_)) or (isinstance(op_, ast.Gt) and one(l_))))
+
+        guards = [n for n in fl.cfg.nodes if n.kind == "test" and isinstance(n.ast, (ast.Compare, ast.Name)) and nonpositive_width(n)]
         ok = False
         for g in guards:
             tsucc = [s for s, lab in g.succ if lab == "T"]
